@@ -113,7 +113,7 @@ def outputOkRequest (f : List String) : String :=
           (match generateModule a with
            | .ok m => "ok outputok=" ++ toString (outputOk a m) ++ " plansok=" ++ toString m.plans.Ok ++
                " sizeexact=" ++ toString m.plans.SizeExact' ++ " supported=" ++ toString (Supported a) ++ " finite=" ++ toString m.plans.finite ++ " elemssure=" ++ toString m.plans.elemsSure ++
-               " acyclic=" ++ toString m.plans.acyclic ++ " paramsok=" ++ toString (paramsOk a) ++ " labelstyped=" ++ toString (labelsTyped a) ++
+               " acyclic=" ++ toString m.plans.acyclic ++ " paramsok=" ++ toString (paramsOk a && paramsUsed a) ++ " typesok=" ++ toString (outputTypesOk a m) ++ " labelstyped=" ++ toString (labelsTyped a) ++
                " variantsdistinct=" ++ toString (variantsDistinct a) ++ " implfits=" ++ toString (m.fromRefMut.all (implFits a m))
            | _ => "nogen")
         | _ => "nogen")
